@@ -196,6 +196,34 @@ Theorem C34_notification_property :
     oracle KNotif (trace notif_step notif_init ops) = true.
 Proof. exact notif_oracle. Qed.
 
+(* ============================== the atomic-section hypothesis is NECESSARY (negative model)
+   If OneshotReceiver::poll were two critical sections (test, then register the waker without
+   re-checking: `oneshot_split_step`, the granularity of seeded change C34b — not the code of
+   /repo), the interleaving  check | send | drop | register  leaves the receiver Pending with
+   its waker registered and the value stored, NOBODY was woken, although a poll would be Ready:
+   the no-lost-wake-up theorem above is false for that machine.  The correspondence run
+   therefore also checks the granularity on the real code (a second thread is released from
+   inside poll; ChannelsCorr.v, c_races). *)
+Theorem C34_oneshot_split_poll_loses_wakeup :
+  forall v : Z,
+  let ops := [SPollCheck 1%nat; SAtomic (Send 0%nat v); SAtomic (DropS 0%nat); SPollRegister 1%nat] in
+  let s := split_run oneshot_init ops in
+  map o_ret (split_outs oneshot_init ops) = [RPending; RUnit; RUnit; RUnit] /\
+  flat_map o_woke (split_outs oneshot_init ops) = [] /\
+  oi_waker (o_in s) = Some 1%nat /\ oi_data (o_in s) = Some v /\
+  o_ret (snd (oneshot_step s (Poll 2%nat))) = RReady v.
+Proof. exact oneshot_split_poll_loses_wakeup. Qed.
+
+(* same for the disconnection wake-up: sender dropped inside the window *)
+Theorem C34_oneshot_split_poll_loses_disconnect_wakeup :
+  let ops := [SPollCheck 1%nat; SAtomic (DropS 0%nat); SPollRegister 1%nat] in
+  let s := split_run oneshot_init ops in
+  map o_ret (split_outs oneshot_init ops) = [RPending; RUnit; RUnit] /\
+  flat_map o_woke (split_outs oneshot_init ops) = [] /\
+  oi_waker (o_in s) = Some 1%nat /\
+  o_ret (snd (oneshot_step s (Poll 2%nat))) = RClosed.
+Proof. exact oneshot_split_poll_loses_disconnect_wakeup. Qed.
+
 (* ============================================================ non-vacuity *)
 
 (* two senders, a parked receiver with waker 7: the send wakes 7, values arrive in order *)
@@ -254,3 +282,5 @@ Print Assumptions C34_notification_ready_only_if_notified.
 Print Assumptions C34_notification_no_lost_wakeup.
 Print Assumptions C34_notification_disconnect_iff.
 Print Assumptions C34_notification_property.
+Print Assumptions C34_oneshot_split_poll_loses_wakeup.
+Print Assumptions C34_oneshot_split_poll_loses_disconnect_wakeup.
